@@ -256,7 +256,30 @@ class Engine:
             if adt and adt["kind"] == "enum" and len(adt["variants"]) == 1 and not adt["variants"][0]["fields"]:
                 return ("agg", "adt", ty, adt["variants"][0]["name"], ())
             return ("const", ty, ("zst", c["s"]))
+        if c.get("uneval") and c.get("promoted") is None:
+            v = self.const_item_value(c["uneval"])
+            if v is not None:
+                return v
         return ("const", ty, ("s", c["s"], c.get("uneval"), c.get("promoted")))
+
+    def const_item_value(self, key):
+        """value of a `const` item whose initialiser is an aggregate of constants (tuples, structs): its MIR body is
+        summarised once (it must be straight-line and reference-free)"""
+        ck = ("const-item", key)
+        if ck in self._promoted:
+            return self._promoted[ck]
+        self._promoted[ck] = None
+        body = self.facts.bodies.get(key)
+        if body is not None and str(body.get("def_kind", "")).startswith(("Const", "AssocConst")):
+            sub = Engine(self.facts, inline=self.inline_pred, max_depth=self.max_depth)
+            try:
+                ps = [p for p in sub.run(body) if p.outcome == "return"]
+            except Budget:
+                ps = []
+            if len(ps) == 1 and isinstance(ps[0].ret, tuple) and ps[0].ret[0] in ("agg", "const") and \
+                    not any(isinstance(x, tuple) and x and x[0] in ("ref", "call", "param") for x in subterms(ps[0].ret)):
+                self._promoted[ck] = ps[0].ret
+        return self._promoted[ck]
 
     def cell_initial(self, cell):
         if cell[0] == "M":
@@ -982,6 +1005,9 @@ class Engine:
         for cand in (fn.get("resolved", {}).get("path"), fn["path"]):
             if cand in self.models:
                 return self.models[cand]
+            m = _NUM_FROM.match(cand or "")
+            if m:
+                return _m_num_from(m.group(1), m.group(2))
         if "trait" in fn:
             k = fn["trait"] + "::" + fn["name"]
             if k in self.models:
@@ -1396,6 +1422,26 @@ def m_checked_sub(eng, st, fr, fn, args, t):
     for (s2, lt) in _fork_bool(eng, st, mk_bin("Lt", a, b)):
         out.append((s2, mk_none() if lt else mk_some(("bin", "Sub", a, b, ty))))
     return out
+
+
+import re as _re
+_NUM_FROM = _re.compile(r"^core::convert::num::<impl core::convert::From<(\w+)> for (\w+)>::from$")
+_FLOATS = ("f32", "f64")
+
+
+def _m_num_from(src, dst):
+    """`Y::from(x: X)` for primitive numeric X, Y is the lossless widening cast `x as Y`"""
+    def m(eng, st, fr, fn, args, t):
+        if src in _FLOATS and dst in _FLOATS:
+            kind = "FloatToFloat"
+        elif dst in _FLOATS:
+            kind = "IntToFloat"
+        elif src in _FLOATS:
+            return None
+        else:
+            kind = "IntToInt"
+        return _ret(st, ("cast", kind, args[0], dst, src))
+    return m
 
 
 ITER = "core::iter::traits::iterator::Iterator"
